@@ -36,3 +36,10 @@ CHECK = {
                     "rounding tolerance 64 eps (1+offset/spread)^2 x conditioning x magnitude (DESIGN 2.6); stated 1e-9 relative for double exact data",
                     "preconditioning = scale-only PreconditionedPointSet (what the library and its tests use)"],
 }
+
+# additionally: a reduced workload under valgrind memcheck, for uninitialised-value
+# use and invalid accesses that the ASan build cannot see; oracle verdicts are not taken from this
+# flavour (valgrind emulates long double with 64 bits), only memcheck's own reports and aborts
+CHECK["thorough"]["flavours"] = list(CHECK.get("flavours", ["asan"])) + ["memcheck"]
+CHECK["quick"]["flavours"] = list(CHECK.get("flavours", ["asan"])) + ["memcheck"]
+CHECK["flavour_cases"] = {"memcheck": {"quick": 160, "thorough": 3000}}
